@@ -81,13 +81,13 @@ func c19Check(env *core.Env, cc core.Case) core.Verdict {
 	defer rmCase(root)
 	v := core.Verdict{Status: core.Held, Nontrivial: true, Features: []string{"via:" + c.Via}, Counts: map[string]int{}}
 	tree := sut.Tree{
-		"regex-assembly/toolchain.yaml":  crsToolchainYAML,
-		"regex-assembly/include/ok.ra":   "fine\n",
-		"regex-assembly/include/a.ra":    "fromfilea\n",
-		"regex-assembly/include/name.ra": "fromfilename\n",
-		"regex-assembly/exclude/b.ra":    "fromfileb\n",
-		"regex-assembly/include/ping.ra": "pingword\n##!> include pong\n",
-		"regex-assembly/include/pong.ra": "##!> include ping\npongword\n",
+		"regex-assembly/toolchain.yaml":   crsToolchainYAML,
+		"regex-assembly/include/ok.ra":    "fine\n",
+		"regex-assembly/include/a.ra":     "fromfilea\n",
+		"regex-assembly/include/name.ra":  "fromfilename\n",
+		"regex-assembly/exclude/b.ra":     "fromfileb\n",
+		"regex-assembly/include/ping.ra":  "pingword\n##!> include pong\n",
+		"regex-assembly/include/pong.ra":  "##!> include ping\npongword\n",
 		"regex-assembly/include/twice.ra": "##!> include twice\n##!> include twice\nw\n",
 	}
 	type inv struct {
